@@ -21,7 +21,7 @@ ID = "C14"
 LEVEL = "model_checking"
 MIN_OUTCOMES = 3
 MANIFEST = {
-    'text': 'All consecutive day pairs 2001..2099 (36,158) for every coherent calendar block (padded, unpadded, glued, prefixed) are rendered through the real bump path and compared; bump-level pairs (old date, new date incl. earlier; quick: old dates of 2001-2029 plus 2038, 2050, 2068-2070, 2099 - thorough: 2001-2099) run through the `test` body; a VCS section in which config and newest tag straddle a 9->10 / 99->100 step of a calendar part and the bump date lies before the true current version; a day-by-day sweep of the {pep440_version} text for version patterns whose calendar parts are joined by - or _; every rejected year/week pairing is shown refused by test and config loader and non-monotone on a witness pair. Exhaustive over the stated date range - transitivity of the order extends consecutive pairs to all pairs.',
+    'text': 'All consecutive day pairs 2001..2099 (36,158) for every coherent calendar block (padded, unpadded, glued, prefixed) are rendered through the real bump path and compared; bump-level pairs (old date, new date incl. earlier; quick: old dates of 2001-2029 plus 2038, 2050, 2068-2070, 2099 - thorough: 2001-2099) run through the `test` body; a VCS section in which config and newest tag straddle a 9->10 / 99->100 step of a calendar part and the bump date lies before the true current version; a day-by-day sweep of the {pep440_version} text for version patterns whose calendar parts are joined by - or _; every rejected year/week pairing is shown refused by test and config loader and non-monotone on a witness pair. Project chains run real updates and `show` with dates going forward, back and forward again over bumpver.toml and setup.cfg (version unquoted and quoted) for nine two-/three-part calendar patterns: the version read back never shows earlier calendar parts. Exhaustive over the stated date range - transitivity of the order extends consecutive pairs to all pairs.',
     'note': 'two-digit years wrap after 2099 by design; platform strftime (glibc) supplies week numbers',
     'technique': 'explicit-state exploration: exhaustive enumeration of the date-successor relation on the real bump path, invariant per edge',
 }
@@ -83,6 +83,7 @@ def explore(tier, seed):
         chunks.append(("bump", "MAJOR." + b, tier))
     chunks.append(("rejected", None, None))
     chunks.append(("tags", None, None))
+    chunks.append(("project", None, None))
     for pattern in PEP_SWEEP:
         chunks.append(("pep", pattern, tier))
     return pool.run_chunks(run_chunk, chunks)
@@ -98,6 +99,8 @@ def run_chunk(chunk):
         bump_level(st, pattern, arg)
     elif kind == "tags":
         behind_a_tag(st)
+    elif kind == "project":
+        project_chains(st)
     elif kind == "pep":
         pep_sweep(st, pattern, arg)
     else:
@@ -152,6 +155,74 @@ TAG_CASES = [
     ("GGGG.VV.INC0", dt.date(2024, 2, 26), dt.date(2024, 3, 4)), ("YYYY.JJJ.INC0", dt.date(2024, 4, 8), dt.date(2024, 4, 9)),
     ("YY.MM.INC0", dt.date(2024, 9, 20), dt.date(2024, 10, 5)),
 ]
+
+
+# (pattern, start version, dates: forward onto a value that ends in 0 - month 10, week 20, day 100 -, then EARLIER, then later again)
+PROJECT_CHAINS = [
+    ("YYYY.MM", "2021.9", ["2021-10-05", "2021-05-01", "2021-11-02", "2021-10-20", "2022-01-03"]),
+    ("YY.MM", "21.9", ["2021-10-05", "2021-05-01", "2021-11-02", "2030-10-01", "2030-02-01"]),
+    ("YYYY.WW", "2021.19", ["2021-05-19", "2021-02-10", "2021-07-28", "2021-06-01"]),
+    ("YYYY.UU", "2021.19", ["2021-05-19", "2021-02-10", "2021-07-28", "2021-06-01"]),
+    ("GGGG.VV", "2021.19", ["2021-05-19", "2021-02-10", "2021-07-28", "2021-06-01"]),
+    ("YYYY.JJJ", "2021.99", ["2021-04-10", "2021-01-05", "2021-07-19", "2021-04-30"]),
+    ("YYYY.MM.DD", "2021.9.30", ["2021-10-10", "2021-10-01", "2021-10-20", "2021-02-03"]),
+    ("YYYY.0M", "2021.09", ["2021-10-05", "2021-05-01", "2021-11-02"]),
+    ("YYYY.Q", "2021.3", ["2021-10-05", "2021-05-01", "2022-01-02"]),
+]
+
+
+def project_chains(st):
+    """Successive REAL updates of a project (the version is written to the config and read back by the next command) with dates that go
+    forward, back and forward again, the config once as bumpver.toml and once as setup.cfg with the version unquoted and quoted (a
+    two-part calendar version reads like a decimal number): what `show` reports and what `update` announces never moves calendar parts
+    backwards, and every command starts from the version the previous one wrote."""
+    import os
+
+    d = pool.fresh_dir("c14p")
+    os.chdir(d)
+    for pattern, start, dates in PROJECT_CHAINS:
+        tree = M.parse_pattern(pattern)
+        for form in ("bumpver.toml", "setup.cfg:unquoted", "setup.cfg:quoted"):
+            world.clear_dir(".")
+            if form == "bumpver.toml":
+                world.write_tree({"bumpver.toml": f'[bumpver]\ncurrent_version = "{start}"\nversion_pattern = "{pattern}"\n\n[bumpver.file_patterns]\n"a.txt" = ["ver={{version}};"]\n'.encode(),
+                                  "a.txt": f"ver={start};\n".encode()})
+            else:
+                q = '"' if form.endswith(":quoted") else ""
+                world.write_tree({"setup.cfg": f"[bumpver]\ncurrent_version = {q}{start}{q}\nversion_pattern = {pattern}\n\n[bumpver:file_patterns]\na.txt =\n    ver={{version}};\n".encode()
+                                               + (b'setup.cfg =\n    current_version = "{version}"\n' if q else b""),  # (the implicit entry has no quotes)
+                                  "a.txt": f"ver={start};\n".encode()})
+            cur = start
+            for i, date in enumerate(dates):
+                case = {"project_chain": True, "pattern": pattern, "form": form, "step": i, "date": date}
+                o = world.cli("update", "--no-fetch", "--date", date)
+                s_ = world.cli("show", "--no-fetch")
+                st.evaluations += 2
+                st.transitions += 2
+                st.validated += 2
+                shown = None
+                for line in s_.stdout.splitlines():
+                    if line.startswith("Current Version: "):
+                        shown = line[len("Current Version: "):]
+                st.observe((pattern, form, i, o.exit, o.old_version, o.new_version, shown))
+                st.state("project", pattern, form, i, shown)
+                st.nontriv("project", pattern, form, i)
+                new = o.new_version if o.exit == 0 else cur
+                problems = []
+                if o.exit == 0 and o.old_version != cur:
+                    problems.append(("update-starts-from-another-version", {"old_version_line": o.old_version, "written_before": cur}))
+                if o.exit == 0 and (cal_tuple(tree, new) is None or cal_tuple(tree, new) < cal_tuple(tree, cur)):
+                    problems.append(("update-moves-calendar-backwards", {"announced": new, "previous": cur}))
+                if shown is None or cal_tuple(tree, shown) is None or cal_tuple(tree, shown) < cal_tuple(tree, cur) or shown != new:
+                    problems.append(("show-reports-an-earlier-or-other-version", {"shown": shown, "written": new, "previous": cur}))
+                for sig, detail in problems:
+                    st.outcomes["violation"] += 1
+                    st.violation(f"C14:project-chain:{sig}:{pattern}:{form.split(':')[-1]}", case, dict(detail, exit=o.exit, log=o.log[-2:]))
+                if problems:
+                    break
+                st.outcomes["project-chain:step-ok" if o.exit == 0 else "project-chain:step-refused"] += 1
+                cur = new
+    os.chdir("/")
 
 
 def behind_a_tag(st):
@@ -353,6 +424,10 @@ def rejected(st):
 
 
 def replay(case, st):
+    if isinstance(case, dict) and case.get("project_chain"):
+        world.set_today(dt.date(2033, 3, 3))
+        project_chains(st)
+        return
     world.set_today(dt.date(2033, 3, 3))
     if case.get("pep_sweep"):
         pep_sweep(st, case["pattern"], "thorough")
